@@ -83,6 +83,21 @@ def gen_timer_spec(rng: random.Random) -> tuple[str, dict]:
             p = s.get("retry")
             if p and p.get("kind") in ("attempts", "legacy") and not p.get("wait") and rng.random() < 0.6:
                 p["wait"] = rng.choice([1, 2, 3, 5, 8])
+    elif fam == "wait" and rng.random() < 0.25:
+        # two DIFFERENT steps wait at the same time for the same event type with the same requirements and no explicit
+        # waiter id (the auto-generated id is then the same string in both steps), with different timeouts; nothing arrives
+        wty, reqk = rng.choice([3, 11]), rng.choice([None, 1])
+        t1, t2 = rng.sample([2, 3, 5, 8, 13], 2)
+        mk = lambda nm, t: {"name": nm, "accepts": [5], "nw": 1, "retry": None,
+                            "script": [["wait", wty, reqk, t, None, None, rng.choice(["swallow", "swallow", "raise"])], ["ret", "6"]]}
+        spec = {"steps": [{"name": "s00", "accepts": [0], "nw": 1, "retry": None, "script": [["send", 5, None, 1], ["ret", "none"]]},
+                          mk("s02", t1), mk("s06", t2),
+                          {"name": "s04", "accepts": [6], "nw": 1, "retry": None, "script": [["collect", [6, 6]], ["ret", "stop"]]}],
+                "externals": []}
+        for st in spec["steps"]:
+            if st["name"] in ("s02", "s06"):
+                st["script"][0][6] = "swallow"  # both must come back for the collector to finish
+        rng.shuffle(spec["steps"])
     elif fam == "wait":
         spec = specgen.gen_wait_spec(rng)
         for s in spec["steps"]:
